@@ -50,7 +50,8 @@ const rangeProlog = `	s := append(make([]int, 0, 4), 10, 20, 30)
 	ch <- 20
 	close(ch)
 	kk, vv, rv := -1, -1, rune(-1)
-	_, _, _, _, _, _, _, _ = s, arr, str, n, ch, kk, vv, rv
+	w := [8]int{}
+	_, _, _, _, _, _, _, _, _ = s, arr, str, n, ch, kk, vv, rv, w
 `
 
 func (sr *srcRenderer) rangeStmt(m J, ind string) string {
@@ -74,6 +75,9 @@ func (sr *srcRenderer) rangeStmt(m J, ind string) string {
 	}
 	kl, kr := name(str(m["kf"]), "k", "kk")
 	vl, vr := name(str(m["vf"]), "v", "vv")
+	if m["vf"] == "idx" { // the second operand is indexed by the first
+		vl, vr = "w[kk+1]", "-7"
+	}
 	tok := "="
 	if m["kf"] == "def" || m["vf"] == "def" {
 		tok = ":="
@@ -178,6 +182,8 @@ func (sr *srcRenderer) simple(s any) string {
 		return str(m["n"]) + "++"
 	case "def":
 		return fmt.Sprintf("%s := %s + %d", str(m["n"]), str(m["n"]), num(m["d"]))
+	case "def2":
+		return "a, b := rt.Two(a, b)"
 	case "callf":
 		return "f()"
 	case "passign":
@@ -198,6 +204,8 @@ func (sr *srcRenderer) simple(s any) string {
 		return fmt.Sprintf("r.E(%d, %s, %s)", num(m["id"]), sr.kvName("k"), sr.kvName("v"))
 	case "effkk":
 		return fmt.Sprintf("r.E(%d, kk, vv)", num(m["id"]))
+	case "effw":
+		return fmt.Sprintf("r.E(%d, w[0], w[1], w[2], w[3], w[4])", num(m["id"]))
 	case "mut":
 		return sr.mutStmt(m)
 	case "setcv":
@@ -227,6 +235,9 @@ func (sr *srcRenderer) cond(c any, init any) string {
 		if !isNone(init) && obj(init)["k"] == "def" {
 			return fmt.Sprintf("r.TA(%d, %s)", num(m["id"]), str(obj(init)["n"]))
 		}
+		if !isNone(init) && obj(init)["k"] == "def2" {
+			return fmt.Sprintf("r.TA(%d, a, b)", num(m["id"]))
+		}
 		return fmt.Sprintf("r.T(%d)", num(m["id"]))
 	case "cv":
 		return "cv()"
@@ -241,7 +252,9 @@ func (sr *srcRenderer) stmt(s any, ind string) string {
 	case "def":
 		n := str(m["n"])
 		return ind + sr.simple(s) + "\n" + ind + "_ = " + n + "\n"
-	case "eff", "inc", "callf", "passign", "panic", "yield", "yfrom", "setcv", "sets", "effkv", "effkk", "mut", "effx":
+	case "def2":
+		return ind + sr.simple(s) + "\n" + ind + "_, _ = a, b\n"
+	case "eff", "inc", "callf", "passign", "panic", "yield", "yfrom", "setcv", "sets", "effkv", "effkk", "effw", "mut", "effx":
 		return indent(sr.simple(s), ind)
 	case "range":
 		return sr.rangeStmt(m, ind)
